@@ -28,6 +28,7 @@ class Sched:
         self.state = ['new'] * n            # parked / blocked / sleeping / done
         self.waiting_for = [None] * n       # the SchedLock a blocked thread wants
         self.stopping = False
+        self.finished = False               # set by stop(): objects of this run met later (garbage collection) are not scheduled
         self.trace = []
         self.threads = []
         self.outcome = [None] * n
@@ -36,7 +37,7 @@ class Sched:
     # ---- worker side ----
     def yield_point(self, kind='parked', lock=None):
         t = cur()
-        if t is None:
+        if t is None or self.finished:
             return                          # the main thread (set-up, final drain) is not scheduled
         self.state[t] = kind
         self.waiting_for[t] = lock
@@ -88,6 +89,7 @@ class Sched:
                 self.back.acquire()
         for th in self.threads:
             th.join(5)
+        self.finished = True
 
 
 class SchedLock:
@@ -98,7 +100,7 @@ class SchedLock:
 
     def __enter__(self):
         t = cur()
-        if t is None:
+        if t is None or self.sched.finished:
             return self
         self.sched.yield_point('parked', self)
         while self.owner is not None and self.owner != t:
@@ -110,7 +112,7 @@ class SchedLock:
 
     def __exit__(self, etype, evalue, tb):
         t = cur()
-        if t is None:
+        if t is None or self.sched.finished:
             return False
         if etype is None and not self.sched.stopping:
             try:
